@@ -7,10 +7,9 @@ import re, sys, pathlib
 root = pathlib.Path(__file__).resolve().parent.parent / 'coq'
 for p in sys.argv[1:]:
     src = (root / 'Props' / f'{p}.v').read_text()
-    header = []
-    for line in src.splitlines():
-        if line.startswith('From ') or line.startswith('Require ') or line.startswith('Import ') or line.startswith('Local Open Scope') or line.startswith('Open Scope'):
-            header.append(line)
+    pre = src[:src.index('Theorem ')]
+    pre = re.sub(r'\(\*.*?\*\)', '', pre, flags=re.S)
+    header = [l for l in pre.splitlines() if l.strip()]
     out = [f'(* Pinned statements for {p}: compiled on every check run. A statement weakened in Props/ fails here. *)']
     out += header
     out.append(f'From TS Require Props.{p}.')
